@@ -44,6 +44,10 @@ def _shape(X):
     return ()
 
 
+def _ename(exc):
+    return exc.__name__ if isinstance(exc, type) else '|'.join(e.__name__ for e in exc)
+
+
 class _Base:
     def check(self, cond, label, detail=''):
         """concrete (structural) requirement -- no solver involved."""
@@ -61,8 +65,8 @@ class _Base:
         except (Violation, Inconclusive, PathAbort, Skip):
             raise
         except Exception as e:   # noqa
-            raise Violation(self._candidate('structure', label, f'raised {type(e).__name__}: {e} instead of {exc.__name__}'))
-        raise Violation(self._candidate('structure', label, f'did not raise {exc.__name__}'))
+            raise Violation(self._candidate('structure', label, f'raised {type(e).__name__}: {e} instead of {_ename(exc)}'))
+        raise Violation(self._candidate('structure', label, f'did not raise {_ename(exc)}'))
 
     def skip(self, why=''):
         raise Skip(why)
